@@ -54,6 +54,12 @@ Fixpoint mem_bytes (x : bytes) (l : list bytes) : bool :=
   | y :: l' => bytes_eqb x y || mem_bytes x l'
   end.
 
+Fixpoint nodup_bytes (l : list bytes) : list bytes :=
+  match l with
+  | [] => []
+  | x :: l' => if mem_bytes x l' then nodup_bytes l' else x :: nodup_bytes l'
+  end.
+
 (* ASCII literal helper: Coq string -> bytes, used only for constant messages. *)
 From Coq Require Import String Ascii.
 Fixpoint bytes_of_string (s : string) : bytes :=
